@@ -415,3 +415,45 @@ Fixpoint positions3 (ws : list (list sitem)) (toks : list stok2) (line col : N) 
       (l1, c1) :: positions3 ws' r l1 (c1 + len (stok2_str t))
   | _, _ => []
   end.
+
+(* ------------------------------------------------------------------ line splices inside separators *)
+Inductive bitem := BBlank (c : N) | BSplice (blanks : str).      (* backslash, blanks, newline *)
+Definition bitem_str (i : bitem) : str := match i with BBlank c => [c] | BSplice b => 92 :: b ++ [10] end.
+Definition bitem_ok (i : bitem) : bool :=
+  match i with BBlank c => is_blank c | BSplice b => forallb (fun c => is_blank c && negb (c =? 10)) b end.
+Definition bsep_str (w : list bitem) : str := flat_map bitem_str w.
+
+(* readfile's location bookkeeping over a separator: (line, column, multiline).
+   a splice keeps the line and the running column and counts in `multiline`; the next real newline adds multiline + 1 lines *)
+Definition step_blank (c : N) (st : N * N * N) : N * N * N :=
+  let '(l, col, ml) := st in
+  if c =? 10 then (if ml =? 0 then (l + 1, 1, 0) else (l + ml + 1, 1, 0)) else (l, col + 1, ml).
+Definition step_item (i : bitem) (st : N * N * N) : N * N * N :=
+  match i with
+  | BBlank c => step_blank c st
+  | BSplice b => let '(l, col, ml) := st in (l, col + 1 + len b, ml + 1)
+  end.
+Definition adjust_items (w : list bitem) (st : N * N * N) : N * N * N := fold_left (fun s i => step_item i s) w st.
+
+Fixpoint sepb_ok (ws : list (list bitem)) (toks : list stok) : bool :=
+  match toks, ws with
+  | a :: ((b :: _) as r), _ :: ((w :: _) as ws') =>
+      (negb (fuses a b) || match w with [] => false | _ => true end) && sepb_ok ws' r
+  | _, _ => true
+  end.
+
+Fixpoint renderb (ws : list (list bitem)) (toks : list stok) : str :=
+  match ws, toks with
+  | w :: ws', t :: r => bsep_str w ++ stok_str t ++ renderb ws' r
+  | w :: _, [] => bsep_str w
+  | [], _ => []
+  end.
+
+(* where token i lands, and on which `line` the implementation reports it *)
+Fixpoint positionsb (ws : list (list bitem)) (toks : list stok) (st : N * N * N) : list (N * N) :=
+  match ws, toks with
+  | w :: ws', t :: r =>
+      let '(l1, c1, m1) := adjust_items w st in
+      (l1, c1) :: positionsb ws' r (l1, c1 + len (stok_str t), m1)
+  | _, _ => []
+  end.
